@@ -4,7 +4,7 @@
    dup_identifier_in_transaction); be_holds P be = the backend maps the identifier of every named node of P to that
    node's own document.  Text level (json text, expression strings, float repr) is outside the model. *)
 From Coq Require Import String List ZArith QArith Bool.
-Require Import QV.C10.Model QV.C10.Spec QV.C10.Iface QV.C10.Hist QV.C10.SpecHist QV.C10.Proofs QV.C10.Proofs_store QV.C10.Proofs_share QV.C10.Proofs_iface QV.C10.Proofs_guard QV.C10.SpecInl QV.C10.Proofs_guard2 QV.C10.Proofs_hist QV.C10.Witness QV.C10.Witness_hist QV.C10.Dur QV.C10.Proofs_dur QV.C10.Tx QV.C10.Proofs_tx.
+Require Import QV.C10.Model QV.C10.Spec QV.C10.Iface QV.C10.Hist QV.C10.SpecHist QV.C10.Proofs QV.C10.Proofs_store QV.C10.Proofs_share QV.C10.Proofs_iface QV.C10.Proofs_guard QV.C10.SpecInl QV.C10.Proofs_guard2 QV.C10.Proofs_hist QV.C10.Witness QV.C10.Witness_hist QV.C10.Dur QV.C10.Proofs_dur QV.C10.Tx QV.C10.Proofs_tx QV.C10.SpecBlind QV.C10.Proofs_blind.
 Import ListNotations.
 Open Scope string_scope.
 
@@ -306,3 +306,31 @@ Proof.
   destruct (tx_ops_core (empty_s []) "s" ex_P HC Hi) as [_ ->]. rewrite <- (Proofs_hist.store_as_store _ _ _ Hi). exact E.
 Qed.
 Print Assumptions C10_storage_guarded_example.
+
+(* ---- round 6: what "the same pulse" gives for observations the model has no function for ---------------------------- *)
+(* get_serialization_data + encoder do not read object identities: for every rendering of dict keys and both child modes
+   (references / embedded), so for the real encoder to_data and for the comparison form repr *)
+Theorem C10_serialised_form_identity_blind : forall kc inl p, to_data_gen kc inl (erase p) = to_data_gen kc inl p.
+Proof. exact to_data_gen_erase. Qed.
+Print Assumptions C10_serialised_form_identity_blind.
+
+(* guarded store through a fresh PulseStorage, load through another one: the loaded pulse (1) serialises to the same
+   document as the original and, embedded form, to the same comparison form - `==` of the real classes compares
+   get_serialization_data, so this is `loaded == original` in the code's own sense; (2) storing it again would write the
+   same document for every named node (named_docs); (3) EVERY observation that does not read object identities takes the
+   same value on it - in particular any program semantics that is a function of the constructor state.  That the real
+   create_program is such a function is not proved (the model has no template semantics): tested by lo_prog. *)
+Theorem C10_storage_observation : forall P s' i, wf P = true -> consistent P -> pt_id P = Some i ->
+  store_as_tx (empty_s []) i P = Ok s' ->
+  exists p' st', load (length (nodes P)) (s_be s') fresh_l i = Ok (p', st') /\ erase p' = erase P /\
+    to_data p' = to_data P /\ repr p' = repr P /\ named_docs p' = named_docs P /\
+    forall A (obs : pt -> A), identity_blind obs -> obs p' = obs P.
+Proof. exact storage_observation. Qed.
+Print Assumptions C10_storage_observation.
+
+(* non-vacuity: the model's interface, duration, document and comparison functions are identity blind; the object identity
+   itself is not (the hypothesis is not trivially true) *)
+Theorem C10_identity_blind_instances : (forall vt, identity_blind (iface_of vt)) /\ identity_blind dur_of /\
+  identity_blind to_data /\ identity_blind repr /\ identity_blind named_docs /\ ~ identity_blind pt_oid.
+Proof. exact blind_instances. Qed.
+Print Assumptions C10_identity_blind_instances.
